@@ -14,3 +14,34 @@ Proof.
   split; [reflexivity|]. vm_compute. discriminate.
 Qed.
 Print Assumptions C08_fill_previous_desc_refuted.
+
+(* FillTransform split path, descending (computeGroup): with today's windows the last window of a group of 4
+   windows re-cut with ChunkSize 2 lies in no sub-chunk - its row is lost (finding C08-fill-split-path) *)
+Theorem C08_desc_subchunks_current_refuted : exists size cs k,
+  (0 < cs)%nat /\ (k < size)%nat /\ covered in_subchunk_current size cs k = false.
+Proof. exists 4%nat, 2%nat, 3%nat. repeat split; try (cbv; auto with arith). Qed.
+Print Assumptions C08_desc_subchunks_current_refuted.
+
+(* fast path of FillTransform.fill (finding C08-fill-null-count-fastpath): with the fast path the output depends on
+   the chunking - one chunk holding all 2 windows is forwarded with its null count(), two chunks are filled *)
+Theorem C08_fill_fast_path_current_refuted : exists i first last aggs c1 c2,
+  concat c1 = concat c2 /\
+  fill_group_chunks_fast_current i first last FillNull aggs c1 <> fill_group_chunks_fast_current i first last FillNull aggs c2.
+Proof.
+  exists 10, 0, 10, [(FCount, 0%nat, 1); (FSum, 1%nat, 1)].
+  exists [[(0, [CNull; CVal 5]); (10, [CVal 2; CVal 7])]].
+  exists [[(0, [CNull; CVal 5])]; [(10, [CVal 2; CVal 7])]].
+  split; [reflexivity|]. vm_compute. discriminate.
+Qed.
+Print Assumptions C08_fill_fast_path_current_refuted.
+
+(* fill(previous) bookkeeping by "row before the gap" (finding C08-fill-previous-multicolumn): differs from the
+   per-column previous value as soon as that row is null in the column *)
+Theorem C08_fill_previous_lastrow_current_refuted : exists aggs rows,
+  fill_rows_lastrow aggs (null_cells aggs) rows <> fill_rows FillPrev aggs (null_cells aggs) rows.
+Proof.
+  exists [(FSum, 0%nat, 1); (FMax, 1%nat, 1)].
+  exists [(0, [CVal 7; CNull]); (10, [CNull; CVal 36]); (20, [CNull; CNull])].
+  vm_compute. discriminate.
+Qed.
+Print Assumptions C08_fill_previous_lastrow_current_refuted.
